@@ -281,6 +281,10 @@ class PurityWorld:
                 return getattr(np, v.get("dtype", "int64"))(v["$npint"])
             if "$npfloat" in v:
                 return getattr(np, v.get("dtype", "float64"))(v["$npfloat"])
+            if "$fraction" in v:
+                from fractions import Fraction
+
+                return Fraction(int(v["$fraction"][0]), int(v["$fraction"][1]))
             if "$dict" in v:
                 return {k: self.resolve(x, fresh) for k, x in v["$dict"].items()}
             return {k: self.resolve(x, fresh) for k, x in v.items()}
